@@ -545,6 +545,19 @@ func genCases(tier string) []caseSpec {
 		}
 		cs = append(cs, c)
 	}
+	// stimuli written in every notation of the number library (plain, 0u, 0d, 0x, 0b, sized forms, 0f; values
+	// ending in zeros): the same text must mean the same value in every run
+	cs = append(cs, caseSpec{ID: n + 14, P: 1, Rsize: 16, Ticks: 26, Progs: [][]string{ioProg}, Rules: []string{
+		"absolute:0:set:i0:0u100", "absolute:3:set:i0:0d2000", "absolute:6:set:i0:0x1f00", "absolute:9:set:i0:0b1010000",
+		"absolute:12:set:i0:0u<16>300", "absolute:15:set:i0:500", "absolute:18:set:i0:0x<8>1f", "absolute:21:set:i0:0b<16>1100",
+		"absolute:23:set:i0:0d<16>7000"}})
+	cs = append(cs, caseSpec{ID: n + 15, P: 1, Rsize: 32, Ticks: 20, Progs: [][]string{ioProg}, Rules: []string{
+		"absolute:0:set:i0:0f1.500000", "absolute:4:set:i0:0u1000", "relative:5:set:i0:0d100", "relative:7:set:i0:0x100",
+		"absolute:10:set:i0:0f<32>2.000000", "absolute:14:set:i0:0u10.0"}})
+	cs = append(cs, caseSpec{ID: n + 16, P: 1, Rsize: 16, Ticks: 1, Sps: "unsigned~0u100", Progs: [][]string{
+		{"i2rw r0 i0", "inc r1", "r2owa r0 o0", "r2owa r1 o1"}}})
+	cs = append(cs, caseSpec{ID: n + 17, P: 1, Rsize: 16, Ticks: 1, Sps: "unsigned~0d1000", Progs: [][]string{
+		{"i2rw r0 i0", "inc r1", "r2owa r0 o0", "r2owa r1 o1"}}})
 	// SinglePipelineSimulate calls whose shown value uses a dynamic number type (registered beforehand)
 	spsProg := []string{"i2rw r0 i0", "inc r1", "r2owa r0 o0", "r2owa r1 o1"}
 	cs = append(cs, caseSpec{ID: n + 11, P: 1, Rsize: 16, Ticks: 1, Sps: "fps16f8~384", Progs: [][]string{spsProg}})
